@@ -87,3 +87,6 @@ for _f in sorted(_glob.glob(_os.path.join(_os.path.dirname(_os.path.abspath(__fi
     _ns = {"T": T, "DASTARD_COMMON": DASTARD_COMMON}
     exec(compile(open(_f).read(), _f, "exec"), _ns)
     PROPS.update(_ns.get("ENTRY", {}))
+
+# Only these are registered in MANIFEST.json (a props.d entry may exist while its harness is still being written).
+REGISTERED = ["C01", "C02", "C06", "C07", "C08", "C09", "C12", "C18", "C19", "C20"]
